@@ -345,6 +345,26 @@ def pi_raises(ctx, st, exc):
         ctx.oblige("raises", f"only-PathError-or-mode-ValueError(got {exc.cls}@{exc.origin})", False)
 
 
+# ------------------------------------------------------------------------------------- Path.__init__ given a Path object
+def pi2_setup(ctx):
+    """A path type applied to a value that already is a Path (a default, a value handed to parse_object, a copy): the mode is checked against the file system
+    *now* - the object may have been accepted earlier for another mode, or for this one before the file system changed."""
+    from pyvc.engine import PathEnd
+    st = pi_setup(ctx)
+    if st.data["std_io"]:
+        raise PathEnd()
+    same_mode = ctx.choose(2, "the-given-Path-has-the-same-mode") == 1
+    g_abs, g_rel, g_cwd = z3.String("given.absolute"), z3.String("given.relative"), z3.String("given.cwd")
+    ctx.assume(isabs(g_abs))
+    ctx.assume(no_url(g_abs))
+    other_bag = CharBag(ctx, "given.mode", ALPHA)
+    given = Rec("Path", attrs={"_std_io": False, "is_url": False, "is_fsspec": False, "_url_data": None, "cwd": g_cwd, "absolute": g_abs, "relative": g_rel,
+                               "mode": st.data["bag"] if same_mode else other_bag, "_skip_check": False, "_mode": st.data["bag"] if same_mode else other_bag})
+    st.env["path"] = given
+    st.data.update(path=g_rel, expected_abs=g_abs, cwd_eff=g_cwd, same_mode=same_mode)
+    return st
+
+
 # ------------------------------------------------------------------------------------- change_to_path_dir
 def ctx_var(ctx, name, initial):
     """ContextVar model: get / set (returns a token remembering the old value) / reset(token)."""
@@ -521,6 +541,8 @@ UNITS = [
          replayer="replayers.c19:replay_check_mode",
          trusted=["set(str) - set(literal) is non-empty iff some character of the string is outside the literal (assumed contract of set)",
                   "Counter(str).items() yields one (char, multiplicity) pair per distinct character (assumed contract of Counter)"]),
+    Unit("C19", "jsonargparse._util:Path.__init__", pi2_setup, pi_post, pi_raises, expect_cover=("return", "raise:PathError"), label="given-a-Path-object",
+         trusted=["the fields of the given Path are what its own construction stored (its own unit): absolute is absolute and local", "file-system predicates as in the unit for strings"]),
     Unit("C19", "jsonargparse._util:Path.__init__", pi_setup, pi_post, pi_raises, expect_cover=("return", "raise:PathError"),
          replayer="replayers.c19:replay_path_init", split=8,
          trusted=["file system = uninterpreted predicates exists/isdir/isfile/st_mode/access_R/W/X of the path string, stable during the call (A3); isdir => exists and not isfile; isfile => exists; not exists => no access",
